@@ -1090,6 +1090,7 @@ structure QL (s s' : CState) : Prop where
   locals : s'.locals = s.locals
   fid : s'.functionId = s.functionId
   depth : s'.scopeDepth = s.scopeDepth
+  jt : s'.jumpTable = s.jumpTable
 
 /-- the global-variable table and the data segment are unchanged -/
 structure QV (s s' : CState) : Prop where
@@ -1097,10 +1098,10 @@ structure QV (s s' : CState) : Prop where
   next : s'.nextVar = s.nextVar
   data : s'.data = s.data
 
-theorem QL.refl (s : CState) : QL s s := ⟨rfl, rfl, rfl⟩
+theorem QL.refl (s : CState) : QL s s := ⟨rfl, rfl, rfl, rfl⟩
 theorem QV.refl (s : CState) : QV s s := ⟨rfl, rfl, rfl⟩
 theorem QL.trans {a b c : CState} (h1 : QL a b) (h2 : QL b c) : QL a c :=
-  ⟨h2.locals.trans h1.locals, h2.fid.trans h1.fid, h2.depth.trans h1.depth⟩
+  ⟨h2.locals.trans h1.locals, h2.fid.trans h1.fid, h2.depth.trans h1.depth, h2.jt.trans h1.jt⟩
 theorem QV.trans {a b c : CState} (h1 : QV a b) (h2 : QV b c) : QV a c :=
   ⟨h2.ids.trans h1.ids, h2.next.trans h1.next, h2.data.trans h1.data⟩
 
@@ -1112,32 +1113,32 @@ theorem pushInstr_ok {o : UInt8} {s s' : CState} {a : Unit} (h : pushInstr o s =
   rw [pushInstr_eq] at h
   simp only [Except.ok.injEq, Prod.mk.injEq, true_and] at h
   subst h
-  exact ⟨rfl, ⟨rfl, rfl, rfl⟩, ⟨rfl, rfl, rfl⟩⟩
+  exact ⟨rfl, ⟨rfl, rfl, rfl, rfl⟩, ⟨rfl, rfl, rfl⟩⟩
 
 theorem emitBytes_ok {bs : List UInt8} {s s' : CState} {a : Unit} (h : emitBytes bs s = .ok (a, s')) :
     s'.bytecode = s.bytecode ++ bs.toArray ∧ QL s s' ∧ QV s s' := by
   rw [emitBytes_eq] at h
   simp only [Except.ok.injEq, Prod.mk.injEq, true_and] at h
   subst h
-  exact ⟨rfl, ⟨rfl, rfl, rfl⟩, ⟨rfl, rfl, rfl⟩⟩
+  exact ⟨rfl, ⟨rfl, rfl, rfl, rfl⟩, ⟨rfl, rfl, rfl⟩⟩
 
 theorem cardLabel_ok' {s s' : CState} {a : Unit} (h : cardLabel s = .ok (a, s')) :
     s'.bytecode = s.bytecode ∧ QL s s' ∧ QV s s' := by
   have := cardLabel_ok h
   subst this
-  exact ⟨rfl, ⟨rfl, rfl, rfl⟩, ⟨rfl, rfl, rfl⟩⟩
+  exact ⟨rfl, ⟨rfl, rfl, rfl, rfl⟩, ⟨rfl, rfl, rfl⟩⟩
 
 theorem withSub_ok' {i : Nat} {m : CM Unit} {a : Unit} {s s' : CState} (h : withSub i m s = .ok (a, s')) :
     ∃ sa s1, m sa = .ok ((), s1) ∧ sa.bytecode = s.bytecode ∧ QL s sa ∧ QV s sa ∧
       s'.bytecode = s1.bytecode ∧ QL s1 s' ∧ QV s1 s' := by
   obtain ⟨s1, h1, rfl⟩ := withSub_ok h
-  exact ⟨_, s1, h1, rfl, ⟨rfl, rfl, rfl⟩, ⟨rfl, rfl, rfl⟩, rfl, ⟨rfl, rfl, rfl⟩, ⟨rfl, rfl, rfl⟩⟩
+  exact ⟨_, s1, h1, rfl, ⟨rfl, rfl, rfl, rfl⟩, ⟨rfl, rfl, rfl⟩, rfl, ⟨rfl, rfl, rfl, rfl⟩, ⟨rfl, rfl, rfl⟩⟩
 
 theorem globalId_ok' {n : String} {s s1 : CState} {id : Nat} (h : globalId n s = .ok (id, s1)) :
     s1.bytecode = s.bytecode ∧ QL s s1 ∧ s1.data = s.data ∧
     ∃ h', s1.varIds.find? (fun p => p.1 == Vm.hName n) = some (h', id) := by
   obtain ⟨h1, h2⟩ := globalId_ok h
-  refine ⟨by rw [h1], ⟨by rw [h1], by rw [h1], by rw [h1]⟩, by rw [h1], h2⟩
+  refine ⟨by rw [h1], ⟨by rw [h1], by rw [h1], by rw [h1], by rw [h1]⟩, by rw [h1], h2⟩
 
 theorem Keep.of_append {lo : Nat} {s s' : CState} {bs : Array UInt8} (h : s'.bytecode = s.bytecode ++ bs) :
     Keep lo s.bytecode.size s s' :=
@@ -1337,7 +1338,7 @@ theorem patchI32_ok {at_ v : Nat} {s s' : CState} {a : Unit} (h : patchI32 at_ v
   simp only [modify_run, Except.ok.injEq, Prod.mk.injEq, true_and] at h
   subst h
   have hr : List.range 4 = [0, 1, 2, 3] := by decide
-  refine ⟨?_, ?_, ?_, ⟨rfl, rfl, rfl⟩, ⟨rfl, rfl, rfl⟩⟩
+  refine ⟨?_, ?_, ?_, ⟨rfl, rfl, rfl, rfl⟩, ⟨rfl, rfl, rfl⟩⟩
   · simp only [hr, List.foldl_cons, List.foldl_nil, Array.set!_eq_setIfInBounds]
     simp
   · intro i hi
@@ -1473,14 +1474,14 @@ theorem pushSub_ok {i : Nat} {s s' : CState} {a : Unit} (h : pushSub i s = .ok (
   unfold pushSub at h
   simp only [modify_run, Except.ok.injEq, Prod.mk.injEq, true_and] at h
   subst h
-  exact ⟨rfl, ⟨rfl, rfl, rfl⟩, ⟨rfl, rfl, rfl⟩⟩
+  exact ⟨rfl, ⟨rfl, rfl, rfl, rfl⟩, ⟨rfl, rfl, rfl⟩⟩
 
 theorem popSub_ok {s s' : CState} {a : Unit} (h : popSub s = .ok (a, s')) :
     s'.bytecode = s.bytecode ∧ QL s s' ∧ QV s s' := by
   unfold popSub at h
   simp only [modify_run, Except.ok.injEq, Prod.mk.injEq, true_and] at h
   subst h
-  exact ⟨rfl, ⟨rfl, rfl, rfl⟩, ⟨rfl, rfl, rfl⟩⟩
+  exact ⟨rfl, ⟨rfl, rfl, rfl, rfl⟩, ⟨rfl, rfl, rfl⟩⟩
 
 /-- `B` agrees with `s1` from `lo1` on, given that it agrees with the final state `s'` and that the
     bytes of `s1` are still there in `s'` -/
@@ -1993,7 +1994,7 @@ theorem scodes_of_processFunctionCards :
     exact ⟨_, hcc, hcs⟩
 end
 
-theorem addFunctions_ok : ∀ (fs : List FunctionIr) {s s' : CState} {a : Unit},
+theorem addFunctions_okS : ∀ (fs : List FunctionIr) {s s' : CState} {a : Unit},
     addFunctions fs s = .ok (a, s') → s' = { s with jumpTable := s'.jumpTable }
   | [], s, s', a, h => by
     simp only [addFunctions, pure_run, Except.ok.injEq, Prod.mk.injEq] at h
@@ -2001,7 +2002,7 @@ theorem addFunctions_ok : ∀ (fs : List FunctionIr) {s s' : CState} {a : Unit},
   | f :: fs, s, s', a, h => by
     simp only [addFunctions] at h
     obtain ⟨_, s1, h1, h2⟩ := bind_ok.1 h
-    have e2 := addFunctions_ok fs h2
+    have e2 := addFunctions_okS fs h2
     unfold addFunction at h1
     obtain ⟨s0, s0', hg, h1⟩ := bind_ok.1 h1
     simp only [get_run, Except.ok.injEq, Prod.mk.injEq] at hg
@@ -2038,7 +2039,7 @@ theorem compileUnit_main {unit : Array FunctionIr} {sf : CState} (h : compileUni
   · obtain ⟨_, _, h1, _⟩ := bind_ok.1 h
     simp at h1
   · obtain ⟨_, s1, h1, h⟩ := bind_ok.1 h
-    have e1 := addFunctions_ok _ h1
+    have e1 := addFunctions_okS _ h1
     obtain ⟨_, s2, h2, h⟩ := bind_ok.1 h
     simp only [modify_run, Except.ok.injEq, Prod.mk.injEq, true_and] at h2
     obtain ⟨_, s3, h3, h⟩ := bind_ok.1 h
@@ -2113,7 +2114,7 @@ theorem flattenFns_spec (ns : List String) (imports : List (String × String)) :
       Compiler.flattenFns ns imports fns i out = .ok out' →
       out'.size = out.size + fns.length ∧ (∀ j, j < out.size → out'[j]? = out[j]?) ∧
       (∀ j, j < fns.length → ∃ ir nf, out'[out.size + j]? = some ir ∧ fns[j]? = some nf ∧
-        ir.arguments = nf.2.arguments ∧ ir.cards = nf.2.cards)
+        ir.arguments = nf.2.arguments ∧ ir.cards = nf.2.cards ∧ ir.name = nf.1 ∧ ir.ns = ns)
   | [], i, out, out', h => by
     simp only [Compiler.flattenFns, pure, Except.pure, Except.ok.injEq] at h
     subst h
@@ -2129,12 +2130,12 @@ theorem flattenFns_spec (ns : List String) (imports : List (String × String)) :
       · cases j with
         | zero =>
           refine ⟨FunctionIr.mk i name f.arguments f.cards ns imports (Hash.handleFromU64 (UInt64.ofNat out.size)),
-            (name, f), ?_, rfl, rfl, rfl⟩
+            (name, f), ?_, rfl, rfl, rfl, rfl, rfl⟩
           rw [Nat.add_zero, h2 _ (by omega)]
           simp
         | succ j =>
-          obtain ⟨ir, nf, e1, e2, e3, e4⟩ := h3 j (by simp only [List.length_cons] at hj; omega)
-          exact ⟨ir, nf, by rw [← e1]; congr 1; omega, by simpa using e2, e3, e4⟩
+          obtain ⟨ir, nf, e1, e2, e3, e4, e5, e6⟩ := h3 j (by simp only [List.length_cons] at hj; omega)
+          exact ⟨ir, nf, by rw [← e1]; congr 1; omega, by simpa using e2, e3, e4, e5, e6⟩
 
 mutual
 theorem flatten_ext : ∀ (m : Module) (limit : Nat) (ns : List String) (out out' : Array FunctionIr),
@@ -2189,7 +2190,7 @@ theorem intoIrStream_main {m std : Module} {limit : Nat} {unit : Array FunctionI
       rcases Nat.lt_or_ge i m.functions.length with h' | h'
       · exact h'
       · rw [List.getElem?_eq_none h'] at hf; cases hf
-    obtain ⟨ir, nf', e1, e2, e3, e4⟩ := a3 i hlt
+    obtain ⟨ir, nf', e1, e2, e3, e4, _, _⟩ := a3 i hlt
     rw [hf] at e2
     cases e2
     have hsz1 : out1.size = m.functions.length := by simpa using a1
